@@ -449,6 +449,15 @@ func shadowTemplates() []shadowTpl {
 		{"flet-param/body", "(flet ([g ({B})\n{CALL}]) (g (lambda (&rest a) 0)))", 2},
 		{"global-defun/before", "(defun {B} (&rest a) 0)\n{CALL}", 2},
 		{"global-defun/after", "(progn\n{CALL}\n)\n(defun {B} (&rest a) 0)", 2},
+		// a definition binds its name in the package at ANY nesting depth: every wrapper shape up to depth 3
+		{"global-defun/in-let/before", "(let ([zq 0]) (defun {B} (&rest a) 0))\n{CALL}", 2},
+		{"global-defun/in-let-let/before", "(let ([zq 0]) (let ([zr 1]) (defun {B} (&rest a) 0)))\n{CALL}", 2},
+		{"global-defun/in-let-progn/before", "(let ([zq 0]) (progn (defun {B} (&rest a) 0)))\n{CALL}", 2},
+		{"global-defun/in-progn-progn/before", "(progn (progn (defun {B} (&rest a) 0)))\n{CALL}", 2},
+		{"global-defun/in-if-progn/before", "(if true (progn (defun {B} (&rest a) 0)))\n{CALL}", 2},
+		{"global-defun/in-let-let-let/before", "(let ([zq 0]) (let* ([zr 1]) (let ([zs 2]) (defun {B} (&rest a) 0))))\n{CALL}", 2},
+		{"global-defmacro/in-let-let/before", "(let ([zq 0]) (let ([zr 1]) (defmacro {B} (&rest a) 0)))\n{CALL}", 2},
+		{"global-set/in-let-let/before", "(let ([zq 0]) (let ([zr 1]) (set '{B} (lambda (&rest a) 0))))\n{CALL}", 2},
 		{"global-set/before", "(set '{B} (lambda (&rest a) 0))\n{CALL}", 2},
 		{"global-set/after", "(progn\n{CALL}\n)\n(set '{B} (lambda (&rest a) 0))", 2},
 		{"other-package-defun", "(in-package 'other)\n(defun {B} (&rest a) 0)\n(in-package 'user)\n{CALL}", 4},
